@@ -8,4 +8,8 @@ mkdir -p .build evidence replays
 for p in e1 e2 e3; do
   go1.26.8 test -c -tags verif -vet=off -o .build/$p.test ./$p
 done
+python3 e4/mkoverlay.py .build/overlay
+go1.26.8 test -c -tags verif -vet=off -overlay .build/overlay/overlay.json -o .build/e4.test ./e4
+python3 e4/mkoverlay.py .build/overlay.race
+go1.26.8 test -c -race -tags verif -vet=off -overlay .build/overlay.race/overlay.json -o .build/e4.race.test ./e4
 echo setup ok
